@@ -121,6 +121,9 @@ type Faults struct {
 type Net struct {
 	K         *simrt.Kernel
 	DefaultIP string
+	// LocalIPs: further addresses of the host the program runs on. A socket bound to the wildcard address receives
+	// what is sent to the host's addresses (DefaultIP, LocalIPs, the unspecified address), not what is sent to others.
+	LocalIPs []string
 	F         Faults
 	udp       map[string]*UDPSock
 	listeners map[string]*TCPListener
@@ -273,10 +276,22 @@ func (n *Net) findUDP(dst *net.UDPAddr) *UDPSock {
 	if s, ok := n.udp[udpKey(dst.IP, dst.Port)]; ok {
 		return s
 	}
-	if s, ok := n.udp[udpKey(nil, dst.Port)]; ok {
+	if s, ok := n.udp[udpKey(nil, dst.Port)]; ok && n.isLocal(dst.IP) {
 		return s
 	}
 	return nil
+}
+
+func (n *Net) isLocal(ip net.IP) bool {
+	if ip == nil || ip.IsUnspecified() || ip.String() == n.DefaultIP {
+		return true
+	}
+	for _, l := range n.LocalIPs {
+		if ip.String() == l {
+			return true
+		}
+	}
+	return false
 }
 
 func (n *Net) arriveUDP(from, dst *net.UDPAddr, data []byte) {
